@@ -22,6 +22,49 @@ MODELS = ('Elastic', 'Newton', 'Maxwell', 'Voigt', 'Burgers', 'Andrade', 'Sundbe
 NARGS = {'Elastic': 0, 'Newton': 0, 'Maxwell': 0, 'Voigt': 2, 'Burgers': 2, 'Andrade': 2, 'SundbergCooper': 4}
 
 
+# the property's parameter range (its quantifier): the float_eps guards of the legacy functions are written for frequency -> 0 and must not be taken inside it
+BOX = {'omega': (1e-12, 1e2), 'mu': (1e3, 1e13), 'eta': (1e0, 1e30), 'alpha': (0.2, 0.5), 'zeta': (1.0, 1.0), 'c_mu': (5.0, 5.0), 'c_eta': (0.02, 0.02)}
+FLOAT_EPS = 2.220446049250313e-16
+
+
+def guard_reach(chk, fname, J, Jref, where):
+    """R07.8: every `|E| <= float_eps` guard of a legacy compliance function is evaluated at the corners of the property's parameter box (E is a product of powers of the
+    parameters, so |E| is extremal at a corner).  A guard that is taken at a corner replaces a term of the law inside the stated range: the value there must still be the
+    published compliance.  A failing corner is the reported witness (concrete omega, mu, eta)."""
+    import itertools, math
+    guards = {}
+    stack = [J]; seen = set()
+    while stack:
+        x = stack.pop()
+        if x.uid in seen: continue
+        seen.add(x.uid)
+        if x.op == 'cmp':
+            for side, other in ((x.args[1], x.args[0]), (x.args[0], x.args[1])):
+                if side.op == 'atom' and side.val[0] == 'float_eps':
+                    guards[other.uid] = other
+        stack.extend(x.args)
+    bad = []
+    ntaken = 0
+    for E in guards.values():
+        names = sorted({a_.val[0] for a_ in X.atoms_of(E)} & set(BOX))
+        other = sorted({a_.val[0] for a_ in X.atoms_of(J)} | {a_.val[0] for a_ in X.atoms_of(Jref)})
+        for corner in itertools.product(*[sorted(set(BOX[n_])) for n_ in names]):
+            env = {n_: BOX[n_][0] for n_ in other if n_ in BOX}
+            env.update(dict(zip(names, corner)))
+            env.update({'float_eps': FLOAT_EPS, 'pi': math.pi})
+            v = abs(X.float_eval(E, env))
+            if not (v <= FLOAT_EPS) or v == 0.0 or v != v:
+                continue
+            ntaken += 1
+            got = X.float_eval(J, env); ref = X.float_eval(Jref, env)
+            if got != got or ref != ref or abs(got - ref) > 1e-9 * abs(ref):
+                pt = ', '.join(f'{n_} = {env[n_]:g}' for n_ in ('omega', 'mu', 'eta') if n_ in env)
+                bad.append(f'the guard `|{X.show(E)[:50]}| <= float_eps` is taken at {pt} (inside the stated range) and the function returns {got:.4g} where the law gives {ref:.4g}')
+                break
+    chk.ob('R07.8', f'legacy {fname}: no float_eps guard replaces a term of the law inside the stated parameter range ({len(guards)} guards, corners of omega in [1e-12, 1e2], mu in [1e3, 1e13], eta in [1, 1e30])',
+           not bad, '; '.join(bad[:2]), where, key=f'R07.8|{fname}', method='corner evaluation of the extracted guard expressions (monomials: extremal at corners); witness point reported')
+
+
 def run(chk):
     repo = Repo(chk.repo)
     mm = repo.by_path('TidalPy/rheology/models.pyx')
@@ -155,6 +198,7 @@ def run(chk):
         J = it2.call(ml, f, [w, comp, eta] + list(extra))
         eq('R07.2', f'legacy {fname}(omega, 1/mu, eta, ...) == J_published ({model})', J, JREF[model], ml.where(f), key=f'R07.2|{fname}')
         eq('R07.2', f'legacy {fname} * models.{model} == 1', J * main[model], X.ONE, ml.where(f))
+        guard_reach(chk, fname, J, JREF[model], ml.where(f))
     f = need_func(ml, 'off')
     eq('R07.2', 'legacy off == elastic compliance', it2.call(ml, f, [w, comp, eta]), 1 / mu, ml.where(f))
 
